@@ -371,7 +371,9 @@ def snapshot(b):
             "pins": [tuple(p) for p in b.getPinCoordinates()] if len(b.getPinLocations()) else []}
 
 
-def judge_rotation(rec, before, after, k, w, pitch, where):
+def judge_rotation(rec, before, after, k, w, pitch, where, slack=0.0):
+    """slack: how far the angle actually handed to armi is from k*pi/3 (radians): the displacement is rotated by the given
+    angle, so an inexact argument (e.g. 10001 accumulated additions of pi/3) may legitimately move it by slack*|d|."""
     import numpy as np
 
     tol = 1e-9 * max(1.0, pitch) * 10
@@ -405,7 +407,7 @@ def judge_rotation(rec, before, after, k, w, pitch, where):
             rec.violation(where + "/non-vector-changed", "%s (not a 6-vector) changed %r -> %r" % (n, v0, v1), w)
     dx, dy = before["disp"]
     rx, ry = rot(dx, dy, deg)
-    if not near(after["disp"], (rx, ry), 1e-9):
+    if not near(after["disp"], (rx, ry), 1e-9 + 2.0 * slack * math.hypot(dx, dy)):
         rec.violation(where + "/displacement", "displacement %s -> %s; R(%g deg) gives %s" % (before["disp"], after["disp"], deg, (rx, ry)), w)
     o0, o1 = before["orient"], after["orient"]
     if o0[:2] != o1[:2] or abs(((o1[2] - o0[2]) - deg) % 360.0) > 1e-9 and abs(((o1[2] - o0[2]) - deg) % 360.0 - 360.0) > 1e-9:
@@ -428,19 +430,23 @@ def do_block(spec, rec, rng):
         s0 = snapshot(b)
         tot = 0
         ok = True
+        slack = 0.0
         for k in seq:
             sb = snapshot(b)
             rec.hit("block.rotate")
+            rad = angle_for(k, how)
+            sl = abs(rad - k * math.pi / 3)
+            slack += sl
             try:
-                b.rotate(angle_for(k, how))
+                b.rotate(rad)
             except Exception as e:
                 rec.crash("HexBlock.rotate", e, w)
                 ok = False
                 break
-            judge_rotation(rec, sb, snapshot(b), k, dict(w, step=k), desc["pinPitch"], "blockrot")
+            judge_rotation(rec, sb, snapshot(b), k, dict(w, step=k), desc["pinPitch"], "blockrot", slack=sl)
             tot += k
         if ok and len(seq) > 1:
-            judge_rotation(rec, s0, snapshot(b), tot, dict(w, composed=tot), desc["pinPitch"], "blockrot-composed")
+            judge_rotation(rec, s0, snapshot(b), tot, dict(w, composed=tot), desc["pinPitch"], "blockrot-composed", slack=slack)
         rec.case(["blockrot", desc["cornersUp"], [(l[1], len(l[2]) if isinstance(l[2], list) else 1) for l in desc["layout"]], desc["vectors"], seq, how],
                  sample=w if n < 1 else None)
         # --- assembly rotation: every block rotates the same way; every exact 60-degree multiple is accepted
@@ -476,7 +482,7 @@ def do_block(spec, rec, rng):
             rec.crash("HexAssembly.rotate", e, w)
             continue
         for (bb, dd), s0 in zip(bs, before):
-            judge_rotation(rec, s0, snapshot(bb), k, w, dd["pinPitch"], "assemrot")
+            judge_rotation(rec, s0, snapshot(bb), k, w, dd["pinPitch"], "assemrot", slack=abs(rad - k * math.pi / 3))
         rec.case(["assemrot", nb, k, how])
     # non-multiples are refused by the assembly
     try:
